@@ -77,6 +77,14 @@ func overlayMap(hfs []HarnessFile) map[string][]byte {
 	}
 	data, _ := os.ReadFile(filepath.Join(verifDir(), "vrt", "vrt.go"))
 	ov[filepath.Join(repoDir, "zzverif", "vrt", "vrt.go")] = data
+	if ents, err := os.ReadDir(filepath.Join(verifDir(), "vlib")); err == nil {
+		for _, e := range ents {
+			if strings.HasSuffix(e.Name(), ".go") {
+				d, _ := os.ReadFile(filepath.Join(verifDir(), "vlib", e.Name()))
+				ov[filepath.Join(repoDir, "zzverif", "vlib", e.Name())] = d
+			}
+		}
+	}
 	return ov
 }
 
@@ -209,6 +217,9 @@ func runPath(P *Program, fn *ssa.Function, prefix []Dec, s *Solver, o *ExploreOp
 	if os.Getenv("GOSYM_DEBUG") != "" {
 		m.extra["debug"] = true
 	}
+	if os.Getenv("GOSYM_PROFILE") != "" {
+		m.sites = stubs // fork sites are reported with the stubs when profiling
+	}
 	if o.Thorough {
 		m.opts["thorough"] = 1
 	}
@@ -249,6 +260,22 @@ func explore(P *Program, fn *ssa.Function, o ExploreOpts) *HarnessResult {
 	var npaths int64
 	stop := false
 	var wg sync.WaitGroup
+	progressStop := make(chan struct{})
+	go func() {
+		tk := time.NewTicker(15 * time.Second)
+		defer tk.Stop()
+		for {
+			select {
+			case <-progressStop:
+				return
+			case <-tk.C:
+				mu.Lock()
+				fmt.Fprintf(logw, "  .. %s: %d paths done, %d queued, %d active, kinds=%v queries=%d\n", fn.Name(), hr.NPaths, len(queue), active, hr.ByKind, atomic.LoadInt64(&gStats.Queries))
+				mu.Unlock()
+			}
+		}
+	}()
+	defer close(progressStop)
 	for w := 0; w < o.Workers; w++ {
 		wg.Add(1)
 		go func() {
@@ -431,6 +458,13 @@ func nativeReplay(prop string, hfs []HarnessFile, vecPath string) (bool, string,
 		ov[h.Virtual] = h.Path
 	}
 	ov[filepath.Join(repoDir, "zzverif", "vrt", "vrt.go")] = filepath.Join(verifDir(), "vrt", "vrt.go")
+	if ents, err := os.ReadDir(filepath.Join(verifDir(), "vlib")); err == nil {
+		for _, e := range ents {
+			if strings.HasSuffix(e.Name(), ".go") {
+				ov[filepath.Join(repoDir, "zzverif", "vlib", e.Name())] = filepath.Join(verifDir(), "vlib", e.Name())
+			}
+		}
+	}
 	ov[filepath.Join(repoDir, rv.PkgDir, "zz_verif_replay_test.go")] = testFile
 	ovData, _ := json.Marshal(map[string]any{"Replace": ov})
 	ovFile := filepath.Join(tmp, "overlay.json")
